@@ -110,6 +110,23 @@ def nontrivial(prop, res):
     return False
 
 
+MAX_NESTING = 25
+
+
+def handler_nesting(trace):
+    """greatest number of handler invocations open at the same time (a callback that waits for input or opens a modal
+    screen runs further handlers inside itself).  CPython's recursion limit (1000 frames) is reached at about 60 such
+    levels: the RecursionError is then an ordinary exception of some handler and the session no longer says anything
+    about the library; sessions nesting deeper than MAX_NESTING are therefore discarded (counted)."""
+    d = best = 0
+    for e in trace:
+        if e[0] == 4:
+            d += 1; best = max(best, d)
+        elif e[0] == 5:
+            d -= 1
+    return best
+
+
 def delivered_texts(trace):
     return ["".join(chr(x) for x in e[3]) for e in trace if e[0] == 19 and e[1] == 7]
 
@@ -241,6 +258,8 @@ def run(chk, tier, prop):
             continue
         if 5 in i[0]:
             chk.hist("discarded:step-limit"); continue
+        if handler_nesting(i[1]) > MAX_NESTING:
+            chk.hist("discarded:handler-nesting>%d" % MAX_NESTING); continue
         c = copy.deepcopy(c); c[0] = 100 + 6 * len(i[1])
         kept.append(c); kimpl.append(i)
         chk.hist("outcome=%s" % (i[0][-1] if i[0] else "none"))
